@@ -19,6 +19,8 @@ def cases(tier):
     for seat in range(1, 5):
         cs.append((play.case_available_sequence, f'observer in seat {seat}: query, play, query again (first trick, real constructor)',
                    dict(props=PROPS, obs_seat=seat, n=3)))
+    for when in ('before', 'after'):
+        cs.append((play.case_two_boards, f'H3 a second board constructed {when} the lead to a first one is a fresh board', dict(props=PROPS, when=when)))
     return cs
 
 
